@@ -141,8 +141,15 @@ func (tx *Transaction) EncodeRLP(w io.Writer) error {
 // DecodeRLP implements rlp.Decoder
 func (tx *Transaction) DecodeRLP(s *rlp.Stream) error {
 	_, size, _ := s.Kind()
-	err := s.Decode(&tx.data)
+	// Decode into a fresh value and start the receiver afresh, the way
+	// UnmarshalJSON does: package rlp re-uses a non-nil *Transaction (and the
+	// elements of a slice that is decoded into again), and decoding in place
+	// would keep the memoised hash and sender of the previous content and
+	// overwrite big numbers that copies made by WithSignature still share.
+	var dec txdata
+	err := s.Decode(&dec)
 	if err == nil {
+		*tx = Transaction{data: dec}
 		tx.size.Store(common.StorageSize(rlp.ListSize(size)))
 	}
 
